@@ -3,13 +3,13 @@
    XRef/PathProofs.v and XRef/XRefProofs.v.
 
    Reading guide.  A project P describes what the Sphinx environment holds after reading
-   (oracle O_sphinx_env: documents with titles and heading-slug tables, std labels, files).
-   [render_link] is the renderer's classification of a link token, [run_link] the whole way
-   to the resolved reference (target, text, warnings).  The parts of Sphinx that MyST only
-   queries (other std object types, other domains, intersphinx) are the section variables
+   (oracle O_sphinx_env: documents with titles and heading-slug tables, std labels, files, the
+   builder).  [render_link] is the renderer's classification of a link token, [run_link] the
+   whole way to the resolved reference (target, text, warnings).  The parts of Sphinx that MyST
+   only queries (other std object types, other domains, intersphinx) are the section variables
    std_objects / other_domains / intersphinx of the model and appear here as universally
    quantified functions with the hypotheses O_contnode_*.
-   The builder's URI of a document is docname ++ ".html" ([target_uri]). *)
+   [target_uri] is get_target_uri of the html (docname.html) and dirhtml (docname/) builders. *)
 From Coq Require Import List NArith Bool.
 From MV Require Import Base.PyStr.
 From MV Require Import XRef.Path.
@@ -20,21 +20,48 @@ From MV Require Import XRef.XRefProofs.
 Import ListNotations.
 Open Scope N_scope.
 
-(* Resolving the relative URI computed by Sphinx's relative_uri against the page that contains
-   it gives back the target, for all segment lists (any directory depth of either page).
-   useg_ok: a segment is not empty, not "." or "..", and has no '/' or '#'. *)
+(* ---------- "the correct URI relative to the referencing page, whatever the depth" ---------- *)
+
+(* Resolving the relative URI computed by Sphinx's relative_uri against the page that contains it
+   gives back the target, for all page-URI paths: any number of directory segments (not empty, not
+   "." or "..", no '/' or '#'), then a file name or the empty segment of a directory URI. *)
 Theorem C12_relative_uri_roundtrip : forall from to : list str,
-  from <> [] -> to <> [] -> Forall useg_ok from -> Forall useg_ok to ->
+  uri_ok from -> uri_ok to ->
   resolve_ref (join s_slash from) (relative_uri (join s_slash from) (join s_slash to))
   = join s_slash to.
 Proof. exact relative_uri_roundtrip. Qed.
 Print Assumptions C12_relative_uri_roundtrip.
 
+(* ... in particular for the page URIs of both builders and documents at any depth, including
+   index documents of sub-directories (dirhtml: "a/index" lives at "a/") *)
+Theorem C12_builder_uri_roundtrip : forall dirhtml (from to : list str),
+  from <> [] -> to <> [] -> Forall useg_ok from -> Forall useg_ok to ->
+  resolve_ref (target_uri dirhtml (join s_slash from))
+              (get_relative_uri dirhtml (join s_slash from) (join s_slash to))
+  = target_uri dirhtml (join s_slash to).
+Proof. exact builder_uri_roundtrip. Qed.
+Print Assumptions C12_builder_uri_roundtrip.
+
+(* the premise "normal segments" is needed: with a "..", an empty or a '#' segment in the target
+   the round trip fails (as it does for the real function) *)
+Theorem C12_relative_uri_roundtrip_premise_refuted :
+  (exists from to, from <> [] /\ to <> [] /\ In s_dotdot to /\
+     resolve_ref (join s_slash from) (relative_uri (join s_slash from) (join s_slash to)) <> join s_slash to)
+  /\ (exists from to, from <> [] /\ to <> [] /\ In [] (removelast to) /\
+     resolve_ref (join s_slash from) (relative_uri (join s_slash from) (join s_slash to)) <> join s_slash to)
+  /\ (exists from to, from <> [] /\ to <> [] /\ (exists s, In s to /\ In c_hash s) /\
+     resolve_ref (join s_slash from) (relative_uri (join s_slash from) (join s_slash to)) <> join s_slash to).
+Proof. exact roundtrip_premise_refuted. Qed.
+Print Assumptions C12_relative_uri_roundtrip_premise_refuted.
+
+(* ---------- every spelling normalises to the intended file / docname ---------- *)
+
 (* Every spelling of a file tp below the source directory - relative with any number of "./",
    "../" up to any common ancestor (so x.md, ./x.md, ../d/x.md, d/../d/x.md ...), or with a leading
    "/" - written in a document of any directory d_dir d, normalises to tp, and every link form
    built on it is classified as intended:  [..](sp) and [..](sp#frag) to a source file,
-   <project:sp>, [..](project:sp#frag),  [..](sp) to a non-document file,  <path:sp>. *)
+   <project:sp>, [..](project:sp#frag),  [..](sp) to a non-document file,  <path:sp> to an
+   existing file (download) or to a missing one (reported when rendered). *)
 Theorem C12_path_spellings : forall (P : project) (d : docrec) (tp : list str) (sp : str),
   segs_ok (p_srcdir P) -> segs_ok (d_dir d) -> Forall name_ok tp -> spells (d_dir d) tp sp ->
   relfn2path (p_srcdir P) (d_dir d) sp = Inside tp
@@ -50,8 +77,12 @@ Theorem C12_path_spellings : forall (P : project) (d : docrec) (tp : list str) (
         /\ collect_download P d sp = (T_dl (Inside tp), []))
   /\ (forall auto ch,
         mem_str s_path (p_url_schemes P) = false ->
-        render_link P d (mklink (s_path ++ c_colon :: sp) auto ch) = C_download sp sp
-        /\ (is_file P (Inside tp) = true -> collect_download P d sp = (T_dl (Inside tp), []))).
+        (is_file P (Inside tp) = true ->
+           render_link P d (mklink (s_path ++ c_colon :: sp) auto ch) = C_download sp sp
+           /\ collect_download P d sp = (T_dl (Inside tp), []))
+        /\ (is_readable P (Inside tp) = false ->
+           render_link P d (mklink (s_path ++ c_colon :: sp) auto ch)
+           = C_nofile (abs_str P (Inside tp)) (s_path ++ c_colon :: sp))).
 Proof. exact path_spellings_all. Qed.
 Print Assumptions C12_path_spellings.
 
@@ -70,17 +101,68 @@ Theorem C12_path_spellings_docname : forall docdir bn tdn sp,
 Proof. exact docname_join_spells. Qed.
 Print Assumptions C12_path_spellings_docname.
 
+(* ... and with a heading anchor: [..](docname#frag) is a document reference with that anchor
+   (code after the repair 5310f28) *)
+Theorem C12_path_spellings_docname_anchor : forall P d bn tdn sp frag ch td,
+  segs_ok (d_dir d) -> seg_ok bn -> d_name d = join s_slash (d_dir d ++ [bn]) ->
+  Forall name_ok tdn -> spells (d_dir d) tdn sp ->
+  is_file P (relfn2path (p_srcdir P) (d_dir d) sp) = false ->
+  find_doc (p_docs P) (join s_slash tdn) = Some td ->
+  render_link P d (mklink (with_frag sp (Some frag)) false ch) = C_doc (join s_slash tdn) (Some frag).
+Proof. exact unknown_docname_anchor. Qed.
+Print Assumptions C12_path_spellings_docname_anchor.
+
+(* name_ok is needed: a directory literally named "\" is taken for a leading "/" by relfn2path *)
+Theorem C12_path_spellings_premise_refuted :
+  exists srcdir docdir tp sp, segs_ok srcdir /\ segs_ok docdir /\ segs_ok tp /\ spells docdir tp sp
+    /\ relfn2path srcdir docdir sp <> Inside tp.
+Proof. exact spelling_premise_refuted. Qed.
+Print Assumptions C12_path_spellings_premise_refuted.
+
+(* ---------- links inside a file pulled in by {include} with :relative-docs: ---------- *)
+
+(* A destination of the included file (directory cm ++ r) that starts with the prefix is rewritten
+   by _handle_relative_docs into a spelling of THE SAME FILE relative to the including document's
+   directory (any depth of either), a #fragment carried along ... *)
+Theorem C12_relative_docs_rewrite : forall P d l prefix cm r t k frag,
+  segs_ok (p_srcdir P) -> p_srcdir P <> [] -> Forall name_ok (d_dir d) ->
+  segs_ok cm -> segs_ok r -> segs_ok t -> t <> [] ->
+  (forall x, d_dir d <> (cm ++ t) ++ x) ->
+  (match frag with Some f => ~ In c_slash f | None => True end) ->
+  l_include l = Some (prefix, cm ++ r) ->
+  startswith (with_frag (rel_spelling k r t) frag) prefix = true ->
+  exists sp', spells (d_dir d) (cm ++ t) sp'
+    /\ handle_relative_docs P d l (with_frag (rel_spelling k r t) frag) = with_frag sp' frag.
+Proof. exact relative_docs_rewrite. Qed.
+Print Assumptions C12_relative_docs_rewrite.
+
+(* ... so the link reaches the document it would reach from the included file's own location *)
+Theorem C12_relative_docs_same_target : forall P d prefix cm r t k frag ch dn,
+  segs_ok (p_srcdir P) -> p_srcdir P <> [] -> Forall name_ok (d_dir d) ->
+  segs_ok cm -> segs_ok r -> Forall name_ok (cm ++ t) -> t <> [] ->
+  (forall x, d_dir d <> (cm ++ t) ++ x) ->
+  (match frag with Some f => ~ In c_slash f | None => True end) ->
+  startswith (with_frag (rel_spelling k r t) frag) prefix = true ->
+  is_file P (Inside (cm ++ t)) = true -> path2doc (p_suffixes P) (Inside (cm ++ t)) = Some dn ->
+  render_link P d (mklink_inc (with_frag (rel_spelling k r t) frag) false ch prefix (cm ++ r)) = C_doc dn frag.
+Proof. exact relative_docs_same_target. Qed.
+Print Assumptions C12_relative_docs_same_target.
+
+(* ---------- anchors ---------- *)
+
 (* doc.md#slug: the slug is looked up in the slug table of the TARGET document td (the table of
    the referencing document does not occur); a hit gives the section id and title, a miss gives
-   one warning (log_missing: exactly [W_missing slug] unless nitpick-ignored) and the fallback id *)
+   one warning (log_missing: exactly [W_missing slug] unless nitpick-ignored), the fallback id and,
+   without link text, the target "docname#slug" as the text (code after the repair 3257367) *)
 Theorem C12_anchor_lookup : forall P from explicit dn td slug,
   find_doc (p_docs P) dn = Some td -> slug <> [] ->
-  (forall e, find_slug (d_slugs td) slug = Some e ->
+  (forall e, find_slug (d_slugs td) slug = Some e -> sl_title e <> [] ->
      resolve_myst_ref_doc P from explicit dn (Some slug)
-     = mk (make_refnode from dn (sl_id e)) (if explicit then X_children else X_str (sl_title e)) [])
+     = mk (make_refnode (p_dirhtml P) from dn (sl_id e)) (if explicit then X_children else X_str (sl_title e)) [])
   /\ (find_slug (d_slugs td) slug = None ->
      resolve_myst_ref_doc P from explicit dn (Some slug)
-     = mk (make_refnode from dn slug) (if explicit then X_children else X_str []) (log_missing P slug)).
+     = mk (make_refnode (p_dirhtml P) from dn slug)
+          (if explicit then X_children else X_lit (dn ++ s_hash ++ slug)) (log_missing P slug)).
 Proof. exact anchor_lookup. Qed.
 Print Assumptions C12_anchor_lookup.
 
@@ -90,10 +172,12 @@ Proof. exact log_missing_plain. Qed.
 Print Assumptions C12_anchor_lookup_warning.
 
 (* the reference node: same page -> refid, other page -> relative URI of the page + '#' + id *)
-Theorem C12_anchor_lookup_uri : forall from to tid, from <> to -> tid <> [] ->
-  make_refnode from to tid = T_uri (get_relative_uri from to ++ s_hash ++ tid).
+Theorem C12_anchor_lookup_uri : forall b from to tid, from <> to -> tid <> [] ->
+  make_refnode b from to tid = T_uri (get_relative_uri b from to ++ s_hash ++ tid).
 Proof. exact make_refnode_other. Qed.
 Print Assumptions C12_anchor_lookup_uri.
+
+(* ---------- link text ---------- *)
 
 (* explicit text is what is rendered on every route, resolved or not (inventory links excepted) *)
 Theorem C12_text_explicit :
@@ -108,38 +192,38 @@ Print Assumptions C12_text_explicit.
 
 (* empty text: the target's title - of the document, of the section, of the labelled section *)
 Theorem C12_text_title_doc : forall P from dn td,
-  find_doc (p_docs P) dn = Some td ->
+  find_doc (p_docs P) dn = Some td -> d_title td <> [] ->
   o_txt (resolve_myst_ref_doc P from false dn None) = X_str (d_title td)
   /\ o_txt (resolve_myst_ref_doc P from false dn (Some [])) = X_str (d_title td).
 Proof. exact text_title_doc. Qed.
 Print Assumptions C12_text_title_doc.
 
 Theorem C12_text_title_section : forall P from dn td slug e,
-  find_doc (p_docs P) dn = Some td -> slug <> [] -> find_slug (d_slugs td) slug = Some e ->
+  find_doc (p_docs P) dn = Some td -> slug <> [] -> find_slug (d_slugs td) slug = Some e -> sl_title e <> [] ->
   o_txt (resolve_myst_ref_doc P from false dn (Some slug)) = X_str (sl_title e).
 Proof. exact text_title_section. Qed.
 Print Assumptions C12_text_title_section.
 
 Theorem C12_text_title_docname :
-  forall (std_objects other_domains : str -> list cand) (intersphinx : str -> option cand)
-         P from t td,
+  forall (std_objects other_domains : str -> list cand) (intersphinx : str -> option cand) P from t td,
   resolve_ref_nested P from false t = None ->
   find_doc (p_docs P) (docname_join from t) = Some td -> d_title td <> [] ->
   o_txt (resolve_any std_objects other_domains intersphinx P from false t) = X_str (d_title td)
   /\ o_tgt (resolve_any std_objects other_domains intersphinx P from false t)
-     = make_refnode from (docname_join from t) [].
+     = make_refnode (p_dirhtml P) from (docname_join from t) [].
 Proof. exact text_title_docname. Qed.
 Print Assumptions C12_text_title_docname.
 
 Theorem C12_text_title_label :
-  forall (std_objects other_domains : str -> list cand) (intersphinx : str -> option cand)
-         P from t e sect,
+  forall (std_objects other_domains : str -> list cand) (intersphinx : str -> option cand) P from t e sect,
   find_label (p_labels P) (lower t) = Some e -> lb_doc e <> [] -> lb_sect e = Some sect -> sect <> [] ->
   o_txt (resolve_any std_objects other_domains intersphinx P from false t) = X_str sect
   /\ o_tgt (resolve_any std_objects other_domains intersphinx P from false t)
-     = make_refnode from (lb_doc e) (lb_id e).
+     = make_refnode (p_dirhtml P) from (lb_doc e) (lb_id e).
 Proof. exact text_title_label. Qed.
 Print Assumptions C12_text_title_label.
+
+(* ---------- warnings ---------- *)
 
 (* a link never produces two xref_missing warnings *)
 Theorem C12_missing_at_most_once :
@@ -149,31 +233,29 @@ Proof. exact missing_at_most_once. Qed.
 Print Assumptions C12_missing_at_most_once.
 
 (* Exactly one xref_missing iff the destination cannot be resolved ([unresolved]: the document,
-   the slug of the target document, the label/docname or the file is in none of the tables).
-   PARTIAL: download links (path: scheme, existing non-document files) are excluded by the premise
-   is_download ... = false; for them the full statement is false, see the next theorem.
+   the slug of the target document, the label/docname or the file is in none of the tables), on every
+   route of the classifier - download links included since the repair 30d027a (a download link that
+   reaches Sphinx's collector always finds its file: download_resolvable).
    nitpick_ignore is taken empty (an ignored target gives no warning by design). *)
-Theorem C12_missing_once_partial :
+Theorem C12_missing_once :
   forall (std_objects other_domains : str -> list cand) (intersphinx : str -> option cand) P d l,
-  p_nitpick P = [] -> is_download (render_link P d l) = false ->
+  p_nitpick P = [] ->
   (unresolved std_objects other_domains intersphinx P d l ->
      count_missing (o_warns (run_link std_objects other_domains intersphinx P d l)) = 1%nat)
   /\ (~ unresolved std_objects other_domains intersphinx P d l ->
      count_missing (o_warns (run_link std_objects other_domains intersphinx P d l)) = 0%nat).
-Proof. exact missing_once_partial. Qed.
-Print Assumptions C12_missing_once_partial.
+Proof. exact missing_once. Qed.
+Print Assumptions C12_missing_once.
 
-(* <path:nofile.txt>: unresolved, yet no xref_missing - the only warning is Sphinx's
-   download.not_readable (open finding "link:missing:path-file:warn-count") *)
-Theorem C12_missing_once_path_refuted :
-  exists P d l,
-    p_nitpick P = [] /\ unresolved no_cands no_cands no_cand P d l
-    /\ count_missing (o_warns (run_link_plain P d l)) = 0%nat
-    /\ o_warns (run_link_plain P d l) = [W_unreadable].
-Proof. exact missing_once_path_refuted. Qed.
-Print Assumptions C12_missing_once_path_refuted.
+(* <path:nofile.txt> (the former open finding): unresolved, exactly one xref_missing *)
+Theorem C12_missing_once_path_witness :
+  unresolved no_cands no_cands no_cand wit_project wit_doc wit_link
+  /\ count_missing (o_warns (run_link_plain wit_project wit_doc wit_link)) = 1%nat.
+Proof. exact missing_once_path_witness. Qed.
+Print Assumptions C12_missing_once_path_witness.
 
-(* the unresolved outcomes in full: one warning naming the destination, text kept *)
+(* the unresolved outcomes in full: one warning naming the destination, the text kept - and a
+   fallback text naming the target when the link has no text *)
 Theorem C12_missing_once_any :
   forall (std_objects other_domains : str -> list cand) (intersphinx : str -> option cand) P from ex t,
   any_candidates std_objects other_domains P from ex t = [] -> intersphinx t = None ->
@@ -185,7 +267,7 @@ Print Assumptions C12_missing_once_any.
 
 Theorem C12_missing_once_doc : forall P from ex dn tid,
   find_doc (p_docs P) dn = None -> mem_str dn (p_nitpick P) = false ->
-  resolve_myst_ref_doc P from ex dn tid = mk T_bare (if ex then X_children else X_none) [W_missing dn].
+  resolve_myst_ref_doc P from ex dn tid = mk T_bare (if ex then X_children else X_lit dn) [W_missing dn].
 Proof. exact missing_doc. Qed.
 Print Assumptions C12_missing_once_doc.
 
@@ -208,17 +290,28 @@ Proof. reflexivity. Qed.
 Example C12_gen_regex_is_modelled : gen_regex_scheme = [94; 40; 91; 97; 45; 122; 65; 45; 90; 93; 91; 97; 45; 122; 65; 45; 90; 48; 45; 57; 43; 46; 45; 93; 42; 41; 58].
 Proof. reflexivity. Qed.
 
-(* ---------- non-vacuity: a concrete three-document project ---------- *)
+(* str.lower() beyond ASCII comes from the interpreter's table *)
+Example C12_gen_lower : lower [76; 65; 66; 45; 220; 66; 69; 82] = [108; 97; 98; 45; 252; 98; 101; 114].
+Proof. vm_compute. reflexivity. Qed.
+
+(* ---------- non-vacuity: a concrete project ---------- *)
 
 Definition ex_index : docrec := {| d_name := [105; 110; 100; 101; 120]; d_dir := []; d_title := [73; 110; 100; 101; 120]; d_slugs := [{| sl_slug := [105; 110; 100; 101; 120]; sl_id := [105; 110; 100; 101; 120]; sl_title := [73; 110; 100; 101; 120] |}]; d_local := [] |}.
 Definition ex_one : docrec := {| d_name := [97; 47; 111; 110; 101]; d_dir := [[97]]; d_title := [79; 110; 101]; d_slugs := [{| sl_slug := [111; 110; 101]; sl_id := [111; 110; 101]; sl_title := [79; 110; 101] |}; {| sl_slug := [115; 101; 99; 45; 97]; sl_id := [115; 101; 99; 45; 97]; sl_title := [83; 101; 99; 32; 65] |}; {| sl_slug := [115; 101; 99; 45; 97; 45; 49]; sl_id := [105; 100; 49]; sl_title := [83; 101; 99; 32; 65] |}]; d_local := [{| lo_name := [108; 97; 98; 45; 120]; lo_id := [108; 97; 98; 45; 120]; lo_title := Some [83; 101; 99; 32; 65] |}] |}.
 Definition ex_two : docrec := {| d_name := [97; 47; 98; 47; 116; 119; 111]; d_dir := [[97]; [98]]; d_title := [84; 119; 111]; d_slugs := [{| sl_slug := [116; 119; 111]; sl_id := [116; 119; 111]; sl_title := [84; 119; 111] |}]; d_local := [] |}.
+Definition ex_aindex : docrec := {| d_name := [97; 47; 105; 110; 100; 101; 120]; d_dir := [[97]]; d_title := [65; 32; 105; 110; 100; 101; 120]; d_slugs := [{| sl_slug := [97; 45; 105; 110; 100; 101; 120]; sl_id := [97; 45; 105; 110; 100; 101; 120]; sl_title := [65; 32; 105; 110; 100; 101; 120] |}]; d_local := [] |}.
 Definition ex_project : project :=
   {| p_srcdir := [[115; 114; 118]; [115; 114; 99]]; p_suffixes := [[46; 114; 115; 116]; [46; 109; 100]];
-     p_docs := [ex_index; ex_one; ex_two];
+     p_docs := [ex_index; ex_one; ex_two; ex_aindex];
      p_labels := [{| lb_name := [108; 97; 98; 45; 120]; lb_doc := [97; 47; 111; 110; 101]; lb_id := [108; 97; 98; 45; 120]; lb_sect := Some [83; 101; 99; 32; 65] |}];
-     p_files := [[[105; 110; 100; 101; 120; 46; 109; 100]]; [[97]; [111; 110; 101; 46; 109; 100]]; [[97]; [98]; [116; 119; 111; 46; 109; 100]]; [[97]; [98]; [100; 97; 116; 97; 46; 116; 120; 116]]];
-     p_nitpick := []; p_url_schemes := [[104; 116; 116; 112]; [104; 116; 116; 112; 115]; [109; 97; 105; 108; 116; 111]; [102; 116; 112]] |}.
+     p_files := [[[105; 110; 100; 101; 120; 46; 109; 100]]; [[97]; [111; 110; 101; 46; 109; 100]]; [[97]; [98]; [116; 119; 111; 46; 109; 100]]; [[97]; [105; 110; 100; 101; 120; 46; 109; 100]]; [[97]; [98]; [100; 97; 116; 97; 46; 116; 120; 116]]; [[115; 110; 105; 112]; [112; 97; 114; 116; 46; 105; 110; 99]]];
+     p_nitpick := []; p_url_schemes := [[104; 116; 116; 112]; [104; 116; 116; 112; 115]; [109; 97; 105; 108; 116; 111]; [102; 116; 112]]; p_dirhtml := false |}.
+Definition ex_project_dirhtml : project :=
+  {| p_srcdir := [[115; 114; 118]; [115; 114; 99]]; p_suffixes := [[46; 114; 115; 116]; [46; 109; 100]];
+     p_docs := [ex_index; ex_one; ex_two; ex_aindex];
+     p_labels := [{| lb_name := [108; 97; 98; 45; 120]; lb_doc := [97; 47; 111; 110; 101]; lb_id := [108; 97; 98; 45; 120]; lb_sect := Some [83; 101; 99; 32; 65] |}];
+     p_files := [[[105; 110; 100; 101; 120; 46; 109; 100]]; [[97]; [111; 110; 101; 46; 109; 100]]; [[97]; [98]; [116; 119; 111; 46; 109; 100]]; [[97]; [105; 110; 100; 101; 120; 46; 109; 100]]; [[97]; [98]; [100; 97; 116; 97; 46; 116; 120; 116]]; [[115; 110; 105; 112]; [112; 97; 114; 116; 46; 105; 110; 99]]];
+     p_nitpick := []; p_url_schemes := [[104; 116; 116; 112]; [104; 116; 116; 112; 115]; [109; 97; 105; 108; 116; 111]; [102; 116; 112]]; p_dirhtml := true |}.
 
 (* a/b/two.md: [](../one.md#sec-a-1)  ->  ../one.html#id1 , text "Sec A", no warning *)
 Example C12_example_anchor :
@@ -226,11 +319,41 @@ Example C12_example_anchor :
   = mk (T_uri [46; 46; 47; 111; 110; 101; 46; 104; 116; 109; 108; 35; 105; 100; 49]) (X_str [83; 101; 99; 32; 65]) [].
 Proof. vm_compute. reflexivity. Qed.
 
-(* "two" is a slug of the referencing page only: one warning, fallback id, text kept *)
+(* the same link under dirhtml, and links to index documents of sub-directories *)
+Example C12_example_dirhtml :
+  run_link_plain ex_project_dirhtml ex_two (mklink [46; 46; 47; 111; 110; 101; 46; 109; 100; 35; 115; 101; 99; 45; 97; 45; 49] false false)
+  = mk (T_uri [46; 46; 47; 46; 46; 47; 111; 110; 101; 47; 35; 105; 100; 49]) (X_str [83; 101; 99; 32; 65]) []
+  /\ run_link_plain ex_project_dirhtml ex_two (mklink [46; 46; 47; 105; 110; 100; 101; 120; 46; 109; 100] false false)
+  = mk (T_uri [46; 46; 47; 46; 46; 47]) (X_str [65; 32; 105; 110; 100; 101; 120]) []
+  /\ run_link_plain ex_project_dirhtml ex_aindex (mklink [47; 105; 110; 100; 101; 120; 46; 109; 100] false false)
+  = mk (T_uri [46; 46; 47]) (X_str [73; 110; 100; 101; 120]) []
+  /\ run_link_plain ex_project_dirhtml ex_index (mklink [97; 47; 105; 110; 100; 101; 120] false false)
+  = mk (T_uri [97; 47]) (X_str [65; 32; 105; 110; 100; 101; 120]) [].
+Proof. repeat split; vm_compute; reflexivity. Qed.
+
+(* "two" is a slug of the referencing page only: one warning, fallback id, text kept;
+   without text the target is shown *)
 Example C12_example_anchor_of_referrer :
   run_link_plain ex_project ex_two (mklink [46; 46; 47; 111; 110; 101; 46; 109; 100; 35; 116; 119; 111] false true)
-  = mk (T_uri [46; 46; 47; 111; 110; 101; 46; 104; 116; 109; 108; 35; 116; 119; 111]) X_children [W_missing [116; 119; 111]].
+  = mk (T_uri [46; 46; 47; 111; 110; 101; 46; 104; 116; 109; 108; 35; 116; 119; 111]) X_children [W_missing [116; 119; 111]]
+  /\ run_link_plain ex_project ex_two (mklink [46; 46; 47; 111; 110; 101; 46; 109; 100; 35; 116; 119; 111] false false)
+  = mk (T_uri [46; 46; 47; 111; 110; 101; 46; 104; 116; 109; 108; 35; 116; 119; 111]) (X_lit [97; 47; 111; 110; 101; 35; 116; 119; 111]) [W_missing [116; 119; 111]].
+Proof. split; vm_compute; reflexivity. Qed.
+
+(* docname#anchor *)
+Example C12_example_docname_anchor :
+  run_link_plain ex_project ex_index (mklink [97; 47; 111; 110; 101; 35; 115; 101; 99; 45; 97] false false)
+  = mk (T_uri [97; 47; 111; 110; 101; 46; 104; 116; 109; 108; 35; 115; 101; 99; 45; 97]) (X_str [83; 101; 99; 32; 65]) [].
 Proof. vm_compute. reflexivity. Qed.
+
+(* a link inside snip/part.inc, included by a/b/two.md with :relative-docs: ../  :
+   ../a/one.md is read relative to snip/, i.e. it is a/one.md, reached from a/b/ as ../one.html *)
+Example C12_example_include :
+  run_link_plain ex_project ex_two (mklink_inc [46; 46; 47; 97; 47; 111; 110; 101; 46; 109; 100; 35; 115; 101; 99; 45; 97] false false [46; 46; 47] [[115; 110; 105; 112]])
+  = mk (T_uri [46; 46; 47; 111; 110; 101; 46; 104; 116; 109; 108; 35; 115; 101; 99; 45; 97]) (X_str [83; 101; 99; 32; 65]) []
+  /\ render_link ex_project ex_two (mklink_inc [46; 46; 47; 97; 47; 111; 110; 101; 46; 109; 100; 35; 115; 101; 99; 45; 97] false false [46; 46; 47] [[115; 110; 105; 112]])
+  = render_link ex_project {| d_name := [115; 110; 105; 112; 47; 120]; d_dir := [[115; 110; 105; 112]]; d_title := [88]; d_slugs := []; d_local := [] |} (mklink [46; 46; 47; 97; 47; 111; 110; 101; 46; 109; 100; 35; 115; 101; 99; 45; 97] false false).
+Proof. split; vm_compute; reflexivity. Qed.
 
 Example C12_example_download :
   run_link_plain ex_project ex_index (mklink [112; 97; 116; 104; 58; 97; 47; 98; 47; 100; 97; 116; 97; 46; 116; 120; 116] true true)
@@ -251,8 +374,10 @@ Proof. split; vm_compute; reflexivity. Qed.
 
 Example C12_example_roundtrip :
   resolve_ref [97; 47; 98; 47; 116; 119; 111; 46; 104; 116; 109; 108] (relative_uri [97; 47; 98; 47; 116; 119; 111; 46; 104; 116; 109; 108] [99; 47; 120; 46; 104; 116; 109; 108]) = [99; 47; 120; 46; 104; 116; 109; 108]
-  /\ relative_uri [97; 47; 98; 47; 116; 119; 111; 46; 104; 116; 109; 108] [99; 47; 120; 46; 104; 116; 109; 108] = [46; 46; 47; 46; 46; 47; 99; 47; 120; 46; 104; 116; 109; 108].
-Proof. split; vm_compute; reflexivity. Qed.
+  /\ relative_uri [97; 47; 98; 47; 116; 119; 111; 46; 104; 116; 109; 108] [99; 47; 120; 46; 104; 116; 109; 108] = [46; 46; 47; 46; 46; 47; 99; 47; 120; 46; 104; 116; 109; 108]
+  /\ resolve_ref [97; 47; 98; 47; 116; 119; 111; 47] (relative_uri [97; 47; 98; 47; 116; 119; 111; 47] [97; 47]) = [97; 47]
+  /\ relative_uri [97; 47; 98; 47; 116; 119; 111; 47] [] = [46; 46; 47; 46; 46; 47; 46; 46; 47].
+Proof. repeat split; vm_compute; reflexivity. Qed.
 
 Example C12_example_spelling : spells [[97]; [98]] [[97]; [111; 110; 101; 46; 109; 100]] [46; 47; 46; 46; 47; 111; 110; 101; 46; 109; 100].
 Proof. exact (Sp_rel [[97]; [98]] [[97]; [111; 110; 101; 46; 109; 100]] [[97]] [[98]] [[111; 110; 101; 46; 109; 100]] 1 eq_refl eq_refl (fun H => match H with end)). Qed.
